@@ -82,7 +82,96 @@ def cases(rng, tier):
         ci = rng.randrange(len(CFGS))
         out.append({"t": "idt", "cfg": ci, "path": rng.randrange(len(PATHS)), "mut": m,
                     "signer": m.get("signer", base_signer(ci) if rng.random() < 0.8 else rng.choice(["op-rsa", "op-ec", "secret"]))})
-    return out
+    return out + rph_cases()
+
+
+# ---- a relying party serving SEVERAL providers (RPHandler: one client per issuer, discovered and registered dynamically): the secret of the
+# registration at one provider is of no value for a token that claims to come from another
+RPH_A, RPH_B = "https://op-a.example.org", "https://op-b.example.org"
+RPH_SECRET = {RPH_A: "s3cret-of-the-registration-at-OP-A-0001", RPH_B: "s3cret-of-the-registration-at-OP-B-0002"}
+RPH_SIGNERS = ["own-secret", "other-issuers-secret", "unknown-secret", "own-secret-other-alg"]
+_RPH_JWKS = {}
+
+
+def rph_cases():
+    return [{"t": "rph", "first": first, "signer": s, "via": via} for first in ("A", "B") for s in RPH_SIGNERS for via in ("finalize_auth", "service")]
+
+
+class _Router:
+    """the two providers: discovery, keys, dynamic registration"""
+
+    def __init__(self):
+        from cryptojwt.key_jar import build_keyjar
+        from idpyoidc.client.defaults import DEFAULT_KEY_DEFS
+        if not _RPH_JWKS:
+            for i in (RPH_A, RPH_B, "rp"):
+                _RPH_JWKS[i] = build_keyjar(DEFAULT_KEY_DEFS, issuer_id=i).export_jwks(private=True, issuer_id=i)
+        self.registered = {}
+
+    def __call__(self, method, url, data=None, headers=None, **kw):
+        import c09
+        from cryptojwt.key_jar import KeyJar
+        for iss in (RPH_A, RPH_B):
+            if url == iss + "/.well-known/openid-configuration":
+                return c09.Resp(200, json.dumps({
+                    "issuer": iss, "authorization_endpoint": iss + "/authorization", "token_endpoint": iss + "/token",
+                    "registration_endpoint": iss + "/register", "jwks_uri": iss + "/jwks.json",
+                    "response_types_supported": ["code", "id_token", "code id_token"], "subject_types_supported": ["public"],
+                    "id_token_signing_alg_values_supported": ["RS256", "HS256"] if iss == RPH_A else ["RS256", "ES256"]}))
+            if url == iss + "/jwks.json":
+                kj = KeyJar(); kj.import_jwks(_RPH_JWKS[iss], iss)
+                return c09.Resp(200, kj.export_jwks_as_json(issuer_id=iss))
+            if url == iss + "/register":
+                body = json.loads(data if isinstance(data, str) else data.decode())
+                self.registered[iss] = body
+                return c09.Resp(201, json.dumps(dict(body, client_id="client_at_" + iss[11], client_secret=RPH_SECRET[iss])))
+        return c09.Resp(404, "{}")
+
+
+def _rph_impl(c):
+    import copy
+    from cryptojwt.jwt import JWT
+    from cryptojwt.key_jar import KeyJar
+    from cryptojwt.key_bundle import KeyBundle
+    from cryptojwt.jwk.hmac import SYMKey
+    from idpyoidc.client.defaults import DEFAULT_CLIENT_CONFIGS
+    from idpyoidc.client.rp_handler import RPHandler
+    clock.CLOCK.t = T0
+    router = _Router()
+    conf = copy.deepcopy(DEFAULT_CLIENT_CONFIGS)
+    conf[""]["preference"]["id_token_signing_alg_values_supported"] = ["HS256", "RS256"]
+    kj = KeyJar(); kj.import_jwks(_RPH_JWKS["rp"], "")
+    rph = RPHandler("https://rp.example.com", client_configs=conf, keyjar=kj, httpc=router)
+
+    def begin(iss, rt):
+        q = parse_qs(urlsplit(rph.begin(issuer_id=iss, req_args={"response_type": rt})).query)
+        return q["state"][0], q["nonce"][0]
+    if c["first"] == "B":
+        begin(RPH_B, "code")
+        state, nonce = begin(RPH_A, "id_token")
+    else:
+        state, nonce = begin(RPH_A, "id_token")
+        begin(RPH_B, "code")
+    client = rph.issuer2rp[RPH_A]
+    reg_alg = router.registered[RPH_A].get("id_token_signed_response_alg")
+    secret = {"own-secret": RPH_SECRET[RPH_A], "other-issuers-secret": RPH_SECRET[RPH_B], "unknown-secret": "a-secret-that-was-never-handed-out-00003",
+              "own-secret-other-alg": RPH_SECRET[RPH_A]}[c["signer"]]
+    skj = KeyJar(); kb = KeyBundle(); kb.append(SYMKey(key=secret, use="sig")); skj.add_kb(RPH_A, kb)
+    alg = "HS384" if c["signer"] == "own-secret-other-alg" else "HS256"
+    idt = JWT(key_jar=skj, iss=RPH_A, lifetime=300, sign_alg=alg).pack({"aud": [client.get_client_id()], "sub": "mallory", "nonce": nonce})
+    how = ""
+    try:
+        if c["via"] == "finalize_auth":
+            rph.finalize_auth(client, RPH_A, {"state": state, "id_token": idt})
+        else:
+            srv = client.get_service("authorization")
+            resp = srv.parse_response("https://rp.example.com/authz_cb#state=%s&id_token=%s" % (state, idt), sformat="urlencoded", state=state)
+            srv.update_service_context(resp, key=state)
+        r = "accepted"
+    except Exception as e:
+        r, how = "rejected", type(e).__name__
+    rec = client.get_context().cstate.get(state)
+    return {"r": r, "how": how, "stored": bool(rec.get("__verified_id_token")), "reg_alg": reg_alg}
 
 
 def base_signer(ci):
@@ -199,6 +288,8 @@ def build(c, nonce, other_nonce, rt, skew):
 
 
 def impl(c):
+    if c["t"] == "rph":
+        return _rph_impl(c)
     cfg = CFGS[c["cfg"]]
     path, rt = PATHS[c["path"]]
     rp = rp_for(c["cfg"], fake_op=bool(c.get("after_exchange")))
@@ -313,6 +404,8 @@ def _f_hash(cl, k, what, alg):
 
 
 def model_lines(c, obs):
+    if c["t"] == "rph":
+        return []
     cfg = CFGS[c["cfg"]]
     path, rt = PATHS[c["path"]]
     cl = obs["claims"]
@@ -363,6 +456,8 @@ def model_lines(c, obs):
 
 
 def compare(c, obs, outs):
+    if c["t"] == "rph":
+        return []          # several issuers behind one handler: the oracle decides (the model's signer classes are those of one issuer)
     cfg = CFGS[c["cfg"]]
     d = []
     if PATHS[c["path"]][0] in ("authz", "token", "refresh") and outs[0] != obs["supplied_sigalg"]:
@@ -432,6 +527,16 @@ def invalid_reasons(c, obs):
 
 def oracle(c, obs):
     v = []
+    if c["t"] == "rph":
+        if obs["reg_alg"] != "HS256":
+            return [{"cls": "rph-world-not-as-intended", "reg_alg": obs["reg_alg"]}]
+        if obs["r"] == "accepted" and c["signer"] != "own-secret":
+            v.append({"cls": "invalid-id-token-accepted", "violates": "signed with a key of the expected issuer (%s)" % c["signer"], "path": "authz", "reg": "dynamic, several issuers"})
+        if obs["r"] == "rejected" and c["signer"] == "own-secret":
+            v.append({"cls": "rph-genuine-token-rejected", "how": obs["how"]})
+        if obs["r"] == "rejected" and obs["stored"]:
+            v.append({"cls": "rejected-id-token-stored", "path": "authz"})
+        return v
     why = invalid_reasons(c, obs)
     if obs["r"] == "accepted" and why:
         v.append({"cls": "invalid-id-token-accepted", "violates": why[0], "all": why, "path": PATHS[c["path"]][0], "reg": CFGS[c["cfg"]]["reg"]})
@@ -445,10 +550,14 @@ def known_key(c, v, known):
 
 
 def classify(c, obs):
+    if c["t"] == "rph":
+        return f"rph:{obs['r']}"
     return f"{PATHS[c['path']][0]}:{obs['r']}:{obs['how']}"
 
 
 def nontrivial(c, obs):
+    if c["t"] == "rph":
+        return True
     return bool(c["mut"]) or c["cfg"] != 0
 
 
